@@ -131,7 +131,11 @@ def gen_enum(ctx, width=None, shape=None, first_ok=True):
             tags.append(A.tag(tname(), 0))
         rng.shuffle(tags)
     if is_open:
-        tags.append(A.tag_other(tname()))
+        # the default tag may be written anywhere in the list, not only last
+        if rng.random() < 0.5:
+            tags.insert(rng.randint(0, len(tags)), A.tag_other(tname()))
+        else:
+            tags.append(A.tag_other(tname()))
     d = A.enum(eid, width, tags)
     ctx.decls.append(d)
     ctx.enums.append((eid, width))
@@ -647,7 +651,7 @@ def make_constraint(ctx, fl, avoid=()):
 def p_inherit(ctx, struct_tree=False):
     rng = ctx.rng
     mk = A.struct if struct_tree else A.packet
-    for _ in range(rng.randint(2, 3)):
+    for ri in range(rng.randint(2, 3)):
         # root with discriminators
         b = Body(ctx)
         nd = rng.randint(1, 3)
@@ -661,9 +665,19 @@ def p_inherit(ctx, struct_tree=False):
         if rng.random() < 0.3:
             # optional fields in a parent: the flag must survive specialization and conversions
             add_optional(ctx, b, 1, n=rng.randint(1, 2))
-        sized = add_payload(ctx, b, body=rng.random() < 0.25)
-        if rng.random() < 0.4:
-            trailing_static(ctx, b, 1)
+        # the first root always has an unsized payload followed by static fields (offset from the
+        # end), the second a size field; the rest is random
+        if ri == 0:
+            sized = add_payload(ctx, b, body=False, sized=False)
+            trailing_static(ctx, b, rng.randint(1, 2))
+        elif ri == 1:
+            sized = add_payload(ctx, b, body=rng.random() < 0.25, sized=True)
+            if rng.random() < 0.4:
+                trailing_static(ctx, b, 1)
+        else:
+            sized = add_payload(ctx, b, body=rng.random() < 0.25)
+            if rng.random() < 0.4:
+                trailing_static(ctx, b, 1)
         b.align()
         rid = ctx.uid("R")
         ctx.decls.append(mk(rid, b.fields))
@@ -777,6 +791,37 @@ def p_size_children(ctx):
                                   constraints=[A.constraint(d, value=201)]))
         ctx.decls.append(A.packet(ctx.uid("C"), [A.scalar(ctx.fid(), 16)], parent_id=mid))
     ctx.features.add("size_children")
+    ctx.features.add("inherit")
+
+
+def p_alias_chain(ctx):
+    """payload-only intermediates ("aliases") that carry a constraint of their own, with leaves below
+    two different aliases constraining the same field to the same value: only the alias's constraint
+    tells them apart, on valid encodings already"""
+    rng = ctx.rng
+    g, op = ctx.fid(), ctx.fid()
+    wg = rng.choice([4, 8, 16])
+    b = Body(ctx)
+    b.add_bits(A.scalar(g, wg), wg)
+    b.align()
+    b.add_bits(A.scalar(op, 8), 8)
+    add_payload(ctx, b, sized=rng.random() < 0.5, modifier=0)
+    if rng.random() < 0.3:
+        trailing_static(ctx, b, 1)
+    rid = ctx.uid("R")
+    ctx.decls.append(A.packet(rid, b.fields))
+    gv = rng.sample(range(0, 1 << wg), 3)
+    ops = rng.sample(range(0, 256), 2)
+    for ai in range(2):
+        alias = ctx.uid("C")
+        ctx.decls.append(A.packet(alias, [A.payload()], parent_id=rid, constraints=[A.constraint(g, value=gv[ai])]))
+        for oi, ov in enumerate(ops):
+            flds = [A.scalar(ctx.fid(), rng.choice([8, 16, 24, 32]))]
+            if rng.random() < 0.4:
+                flds.append(A.array(ctx.fid(), width=8))
+            ctx.decls.append(A.packet(ctx.uid("C"), flds, parent_id=alias, constraints=[A.constraint(op, value=ov)]))
+    # a plain constrained child next to the aliases
+    ctx.decls.append(A.packet(ctx.uid("C"), [A.scalar(ctx.fid(), 16)], parent_id=rid, constraints=[A.constraint(g, value=gv[2])]))
     ctx.features.add("inherit")
 
 
@@ -1078,7 +1123,7 @@ MATRIX_PARTS = 6
 
 PROFILE_FN = {
     "bitfield": p_bitfield, "array": p_array, "payload": p_payload, "optional": p_optional,
-    "inherit": lambda c: (p_inherit(c), p_size_children(c)),
+    "inherit": lambda c: (p_inherit(c), p_size_children(c), p_alias_chain(c)),
     "enum": p_enum, "groups": p_groups, "small": p_small, "mix": p_mix, "structs": p_structs,
     "hostile": p_hostile, "matrix": p_matrix,
 }
